@@ -23,12 +23,12 @@ def InfoOk (info : List Nat) : Prop :=
   info ≠ [] ∧ (info = [46] ∨ hasDupEntry ((splitBytes 59 info).map (fun f => f.takeWhile (· ≠ 61))) = false)
 
 /-- info_irrelevant: the content of an (accepted) INFO column never influences what a record decodes to. -/
-theorem info_irrelevant (n : Nat) (chrom pos id ref alt qual filter info info' format : List Nat) (samples : List (List Nat))
+theorem info_irrelevant (n prev : Nat) (chrom pos id ref alt qual filter info info' format : List Nat) (samples : List (List Nat))
     (hf : ∀ f ∈ [chrom, pos, id, ref, alt, qual, filter, info, info', format] ++ samples, FieldOk f)
     (hi : InfoOk info) (hi' : InfoOk info') :
-    parseVcfRecord n (recLine chrom pos id ref alt qual filter info format samples) =
-      parseVcfRecord n (recLine chrom pos id ref alt qual filter info' format samples) :=
-  parseVcfRecord_info n chrom pos id ref alt qual filter info info' format samples (fun f hm => (hf f hm).1)
+    parseVcfRecord n prev (recLine chrom pos id ref alt qual filter info format samples) =
+      parseVcfRecord n prev (recLine chrom pos id ref alt qual filter info' format samples) :=
+  parseVcfRecord_info n prev chrom pos id ref alt qual filter info info' format samples (fun f hm => (hf f hm).1)
     (infoRefused_false info hi.1 hi.2) (infoRefused_false info' hi'.1 hi'.2)
 
 /-- A sample value: no tab, newline or colon. -/
@@ -53,7 +53,7 @@ theorem missing_spellings (field : List Nat) :
   ⟨by decide, sampleGt_dot_value _ (splitBytes_head_append_sep 58 [46] field (by decide)), rfl⟩
 
 /-! non-vacuity: a stale AC on a real line -/
-example : parseVcfRecord 2 (strBytes "1\t5\t.\tA\tC\t.\t.\tAC=7;AN=4\tGT:DP\t0/1:3\t1|1:9") =
+example : parseVcfRecord 2 1 (strBytes "1\t5\t.\tA\tC\t.\t.\tAC=7;AN=4\tGT:DP\t0/1:3\t1|1:9") =
     some (.gts "1" 5 [.genotype 1, .genotype 2]) := by
   decide
 
